@@ -546,6 +546,9 @@ def c14_one(w, inp, c):
             w.violation('C14:iter-raises', inp, {'error': O.exc_str(e)})
             continue
         w.op('M', 'iter %s' % ser.s_data(dk), 'OK ' + ser.s_list(ser.s_data, got))
+        again, e2 = try_(lambda: list(dk))
+        if e2 is not None or [ser.s_data(x) for x in again] != [ser.s_data(x) for x in got]:
+            w.violation('C14:second-iteration-differs', inp, {'code_name': k.co_name, 'first': len(got), 'second': None if e2 is not None else len(again)})
         exp = [CodeData.from_code(x) for x in kids]
         w.seen((len(kids), k.co_name, k.co_firstlineno))
         if canon(got) != canon(exp):
